@@ -74,6 +74,20 @@ func (e *Env) caseOpts(t *schema.Type, n, perKey int, arbitrary bool, long bool)
 			}
 		}
 	}
+	if hasList(e, t, map[string]bool{}) {
+		// one list well past every plausible "bulk path" threshold (1 024, 4 096, 8 192 elements / 64 KiB of data)
+		cs = append(cs, &gen.Opts{Arbitrary: arbitrary, NoNilBody: true, Lens: []int{10000}, StrLens: []int{1, 3}})
+	}
+	for _, f := range t.Fields {
+		if f.Kind == "pstr" && f.Prefix == "u32" {
+			// texts behind a 32-bit length prefix: past 64 KiB, and (one type per module) past 16 MiB
+			cs = append(cs, &gen.Opts{Arbitrary: arbitrary, NoNilBody: true, StrLens: []int{70000, 3}})
+			if long || t.QName == "risk.RiskResult" || t.QName == "szse.Extend206302" {
+				cs = append(cs, &gen.Opts{Arbitrary: arbitrary, NoNilBody: true, StrLens: []int{17<<20 + 5, 2, 0}})
+			}
+			break
+		}
+	}
 	// object lists behind a 32-bit count legitimately hold more than 65 535 elements
 	for _, f := range t.Fields {
 		if f.Kind == "objlist" && f.Prefix == "u32" {
